@@ -219,7 +219,8 @@ def gen_expr(rng, depth):
         if not re.fullmatch(r"[\w.]+|-?[\d.]+(d-?\d+)?", base):
             base = f"({base})"
         ex = rng.choice(["2", "0.5", "0.6353d0", "(-0.5)", "1.5d0", "-2", "2**2", "3**0.5"])
-        return f"{base}**{ex}"
+        sign = "-" if rng.random() < 0.15 else ""      # Fortran: -x**2 is -(x**2)
+        return f"{sign}{base}**{ex}"
     if r < 0.8:
         return f"{rng.choice(FUNCS)}({gen_expr(rng, depth - 1)})"
     return f"({gen_expr(rng, depth - 1)})"
@@ -312,6 +313,7 @@ def run(argv):
     exprs = ["2**3**2", "-2.0**2", "Tgas**2**0.5", "3.0*-2.0**2", "n(idx_H2)*2.0", "n(idx_E)+1.0", "n(idx_H)*n(idx_Hp)",   # finding witnesses first
              "3.92d-13*invTe**0.6353d0", "exp(-32.7d0+13.5d0*lnTe)", "1.d0/(1.d0+Tgas)", "sqrt(Tgas)*T32**(-0.5)",
              "Tgas**(1d0/3d0)", "2d0/3d0*Te", "1d0/2d0", "(3d0/4d0)*Tgas**(5d-1)", "7d0/2d0+1d1/4d0",
+             "exp(-(Tgas/1.2d3)**2)", "3.0d-9*exp(-T32**1.5d0)", "-Tgas**2", "Te*(-invTe**2)", "-n(idx_H)**2", "-sqrt(Tgas)**3",
              "1.2d-8/(Tgas/3.d2)", "Te/(T32/invTe)", "2.0/(Tgas/300.0)/(Te/2.0)", "Tgas-(Te-T32)", "Tgas/(Te*T32)", "Tgas-(Te+T32)"]
     for f in [REPO / "tests/data/primordial.krome", REPO / "naunet/examples/primordial/primordial.krome",
               REPO / "naunet/examples/deuterium/deuterium.krome", REPO / "tests/data/minimal.krome"]:
@@ -329,7 +331,7 @@ def run(argv):
     KROMEReaction.initialize()
     KROMEReaction.reacformat = "idx,r,p,rate"
     for n, fx in enumerate(exprs):
-        bundled = 22 <= n < nb
+        bundled = 28 <= n < nb
         try:
             with silenced():
                 if "," in fx:
